@@ -82,3 +82,44 @@ pub fn authdata_decode(arg: &str) -> (bool, String) {
         }
     }
 }
+
+/// C12 (building): arg = "<flags hex>|<a: attested section 0/1>|<e: extensions 0/1>|<order>", order a permutation of
+/// the letters f (set_flags), a (set_attested_credential_data), e (set_make_credential_extensions).  The value is built with
+/// the provided constructor and setters only, encoded, and judged by the statement: AT / ED set exactly when the
+/// section is present, and decoding returns an equal value (an absent counter reads back as zero).
+pub fn authdata_built(arg: &str) -> (bool, String) {
+    use coset::{iana, CoseKeyBuilder};
+    use passkey_types::ctap2::{make_credential::SignedExtensionOutputs, Aaguid, AttestedCredentialData, AuthenticatorData, Flags};
+    let p: Vec<&str> = arg.split('|').collect();
+    let fb = u8::from_str_radix(p[0], 16).unwrap();
+    let Some(flags) = Flags::from_bits(fb) else { return (false, "not a Flags value".into()) };
+    let (with_a, with_e) = (p[1] == "1" && p[3].contains('a'), p[2] == "1" && p[3].contains('e'));
+    let mut d = AuthenticatorData::new("example.com", None);
+    for step in p[3].chars() {
+        d = match step {
+            'f' => d.set_flags(flags),
+            'a' if with_a => {
+                let key = CoseKeyBuilder::new_ec2_pub_key(iana::EllipticCurve::P_256, vec![0x11; 32], vec![0x22; 32]).algorithm(iana::Algorithm::ES256).build();
+                d.set_attested_credential_data(AttestedCredentialData::new(Aaguid::new_empty(), vec![7; 16], key).unwrap())
+            }
+            'e' if with_e => d.set_make_credential_extensions(Some(SignedExtensionOutputs { hmac_secret: Some(true), hmac_secret_mc: None })).unwrap(),
+            _ => d,
+        };
+    }
+    let bytes = d.to_vec();
+    if bytes.len() < 37 { return (true, "encoding shorter than 37 bytes".into()); }
+    let (at, ed) = (bytes[32] & 0x40 != 0, bytes[32] & 0x80 != 0);
+    let (has_a, has_e) = (d.attested_credential_data.is_some(), d.extensions.is_some());
+    if has_a != with_a || has_e != with_e { return (true, "a section handed to a setter is not in the value".into()); }
+    if at != has_a || ed != has_e {
+        return (true, format!("flag byte {:#04x}: AT={at} ED={ed}, but attested section present={has_a}, extensions present={has_e} ({} bytes encoded)", bytes[32], bytes.len()));
+    }
+    match AuthenticatorData::from_slice(&bytes) {
+        Err(e) => (true, format!("the encoding of a built value is rejected by the decoder: {e:?}")),
+        Ok(x) => {
+            let same = x.rp_id_hash() == d.rp_id_hash() && x.flags == d.flags && x.counter == Some(d.counter.unwrap_or(0))
+                && x.attested_credential_data.is_some() == has_a && x.extensions == d.extensions;
+            (!same, if same { "round trip equal".into() } else { format!("decoded value differs: flags {:#04x} vs {:#04x}", x.flags.bits(), d.flags.bits()) })
+        }
+    }
+}
